@@ -206,6 +206,39 @@ func Case(class string, nontrivial bool, key string, sample any) {
 	}
 }
 
+// CaseFn is Case with a lazily built sample: mk is called only when the
+// reservoir would keep a sample of this class (so hot loops pay nothing).
+func CaseFn(class string, nontrivial bool, key string, mk func() any) {
+	var sample any
+	if nontrivial && mk != nil && WantSample(class) {
+		sample = mk()
+	}
+	Case(class, nontrivial, key, sample)
+}
+
+// WantSample reports whether a written-out sample of this class would be kept.
+func WantSample(class string) bool {
+	mu.Lock()
+	defer mu.Unlock()
+	return sampleSeen[class] < 2 && len(samples) < maxSamples
+}
+
+// Hex renders bytes for a sample, abbreviating long strings.
+func Hex(b []byte) string {
+	const hexd = "0123456789abcdef"
+	enc := func(x []byte) string {
+		o := make([]byte, 0, 2*len(x))
+		for _, c := range x {
+			o = append(o, hexd[c>>4], hexd[c&15])
+		}
+		return string(o)
+	}
+	if len(b) <= 160 {
+		return enc(b)
+	}
+	return enc(b[:96]) + fmt.Sprintf("...(%d bytes)...", len(b)) + enc(b[len(b)-32:])
+}
+
 // Count adds n to a class counter without counting an evaluation.
 func Count(class string, n int64) {
 	mu.Lock()
